@@ -16,7 +16,7 @@
 From Coq Require Import List Bool Arith ZArith.
 From Verif Require Import Base.Effects Calcium.World Calcium.Ops Calcium.Run Calcium.EffectsProofs
   Calcium.OpsProofs Calcium.OpsProofs2 Calcium.InvProofs Calcium.Sweeps Calcium.DeployProofs Calcium.DeployProofs2
-  Calcium.CreateProofs Calcium.CreateProofs2 Calcium.Examples.
+  Calcium.CreateProofs Calcium.CreateProofs2 Calcium.NodeProofs Calcium.CapProofs Calcium.Examples.
 
 Theorem C10_realloc : forall id req w k, wf w -> use_ok w ->
   use_ok (fst (fst (crunk (realloc id req) w k))).
@@ -48,6 +48,14 @@ Theorem C10_create : forall opi pod r plan w k, create_hyp w opi r plan -> use_o
   use_ok (fst (fst (crunk (create opi pod r plan) w k))).
 Proof. exact create_keeps_usage. Qed.
 Print Assumptions C10_create.
+
+(* "no allocation ever raises a node's memory usage above its capacity": create, every world with distinct
+   plugin records, every feasible plan, every fault position *)
+Theorem C10_create_capacity : forall opi pod r plan w k, create_hyp w opi r plan -> (0 <= snd r)%Z ->
+  NoDup (pnames (plugs w)) -> cap_ok w ->
+  cap_ok (fst (fst (crunk (create opi pod r plan) w k))).
+Proof. exact create_keeps_capacity. Qed.
+Print Assumptions C10_create_capacity.
 
 (* create: usage = sum and usage <= capacity (and C12) after every fault position, on the scenario family *)
 Theorem C10_create_scenarios : forall w o, (w = busy3 \/ w = base3) -> In o create_ops ->
